@@ -6,18 +6,21 @@ from vlib import Check, tlc, harness, OUT
 
 C05 = {"reply-delivered-to-wrong-call", "success-without-own-reply", "error-reply-delivered-to-wrong-call",
        "tag-reused-while-outstanding", "notag-used-for-request", "call-returned-twice", "call-never-returned", "spurious-failure"}
-C12 = {"call-never-returned", "context-error-without-cancel", "wrong-typed-reply-delivered-as-success",
+C12 = {"call-never-returned", "context-error-without-cancel", "spurious-failure", "wrong-typed-reply-delivered-as-success",
        "unexpected-message-error-without-cause", "call-returned-twice"}
 
 
 def to_scenario(name, labels, with_faults, repeat=0):
-    steps, nrogue = [], 0
+    steps, nrogue, ended = [], 0, set()
     for a in labels:
         k, i = a["a"], a["i"]
         if k == "invoke":
             steps.append({"a": "start", "i": i})
         elif k == "dispatch":
-            steps.append({"a": "await_req", "i": i})
+            if i not in ended:      # (a request whose context has ended never reaches the wire)
+                steps.append({"a": "await_req", "i": i})
+        elif k == "ctxret":
+            steps.append({"a": "await_ret", "i": i})
         elif k == "reply" and i > 0:
             kind = a["k"]
             if not with_faults and kind == "badtype":
@@ -29,6 +32,7 @@ def to_scenario(name, labels, with_faults, repeat=0):
         elif k == "deliver" and i > 0:
             steps.append({"a": "await_ret", "i": i})
         elif k == "cancel":
+            ended.add(i)
             steps.append({"a": "cancel", "i": i})
         elif k == "fault" and with_faults:
             steps.append({"a": "fault", "k": len(steps)})
@@ -99,11 +103,21 @@ def _run(pid, tier, classes, with_faults):
         if ra.violation is None:
             raise vlib.Inconclusive("ClientImpl as-is: no violation (vacuity guard failed)")
         ck.cov["tlc_runs"].append({"cfg": "ClientImpl_asis.cfg", "expected_violation": ra.violation})
+        rc = tlc("client", "ClientImpl", "ClientImpl_ctxclose.cfg", workers=8, timeout=600)
+        if rc.violation is None:
+            raise vlib.Inconclusive("ClientImpl ctxclose: no violation (vacuity guard failed)")
+        ck.cov["tlc_runs"].append({"cfg": "ClientImpl_ctxclose.cfg", "expected_violation": rc.violation})
     behs = simulate(150 if q else 2000, 40)
     scs = [to_scenario("sim-%d" % i, b, with_faults, 1 if q else 2) for i, b in enumerate(behs)]
     if with_faults and ra.trace_json:
         labels = [st[1]["act"] for st in ra.trace_json["counterexample"]["state"]]
         scs.insert(0, to_scenario("tlc-cex-unknown-tag", labels, True, 2))
+    # calls issued with a context that has already ended (deadline passed / cancelled), next to ordinary calls
+    st = []
+    for k in range(1, 13):
+        st += [{"a": "start", "i": 2 * k, "kind": "expired"}, {"a": "start", "i": 2 * k + 1}, {"a": "await_req", "i": 2 * k + 1},
+               {"a": "reply", "i": 2 * k + 1, "kind": "ok"}, {"a": "await_ret", "i": 2 * k + 1}, {"a": "await_ret", "i": 2 * k}]
+    scs.append({"name": "expired-context-calls", "steps": st, "repeat": 3})
     if not with_faults:
         scs.append({"name": "tag-wrap-true-width", "steps": [], "wrap": 132000 if q else 200000})
         # all permutations of reply order for 4 concurrent callers
